@@ -4,6 +4,8 @@ import (
 	"fmt"
 	"strings"
 
+	"verif/internal/absint"
+
 	"golang.org/x/tools/go/ssa"
 
 	"verif/internal/bdd"
@@ -243,6 +245,7 @@ func c06(cx *Ctx, r *ev.Report) {
 	r.Analysed["arms_notifying_a_handler"] = notify
 	r.AddFloor("arms_notifying_a_handler", notify, 2)
 	c06InvokeSites(cx, r)
+	c06Constructors(cx, r)
 	armAnalysed(cx, r)
 	r.Analysed["step_rows"] = len(sa.rows)
 	r.Analysed["im0_instructions"] = len(sa.im0)
@@ -439,4 +442,95 @@ func c07RefShape(cx *Ctx, r *ev.Report) {
 		r.Check(ref.Loc[isa.LocPC].Equal(want), key, "REWIND(arm): PC stays on the instruction exactly while it is to be executed again", a.Pos, "summary-equality",
 			"reference PC is "+c.Describe(ref.Loc[isa.LocPC]))
 	}
+}
+
+// c06Constructors: the exported request constructors build the request the
+// decision table is about (type, data bytes in order, nothing else).
+func c06Constructors(cx *Ctx, r *ev.Report) {
+	nmiT, err1 := cx.E.ConstValue("NMIType")
+	imT, err2 := cx.E.ConstValue("IMType")
+	rule := "CONSTRUCTOR-EQ: the request constructors return a fresh Interrupt with the documented Type and exactly the supplied data bytes in order"
+	if err1 != nil || err2 != nil {
+		r.Undecide("C06/constructor", rule, "", "UNRESOLVED anchors NMIType/IMType")
+		return
+	}
+	n := 0
+	for _, name := range []string{"NMIInterrupt", "IM0Interrupt", "IM1Interrupt", "IM2Interrupt"} {
+		fn := cx.P.Func(load.ModulePath, name)
+		key := "C06/constructor/func=" + name
+		if fn == nil {
+			r.Undecide(key, rule, "", "UNRESOLVED anchor: func "+name)
+			continue
+		}
+		n++
+		c := dom.NewCtx()
+		tr := dom.NewTrace(c)
+		in := absint.New(cx.P, c, tr)
+		var args []absint.Value
+		for i, p := range fn.Params {
+			args = append(args, in.SymbolicValue(p.Type(), fmt.Sprintf("arg%d", i)))
+		}
+		res, out, err := in.Run(fn, args, absint.NewState())
+		pos := cx.P.Pos(fn.Pos())
+		if err != nil {
+			r.Undecide(key, rule, pos, err.Error())
+			continue
+		}
+		var det []string
+		p, ok := res.(*absint.Ptr)
+		if !ok || p.Nil != bdd.False || !strings.HasPrefix(p.Root, "alloc#") {
+			r.Violate(key, rule, pos, "does not return a freshly allocated request")
+			continue
+		}
+		wantT := imT
+		if name == "NMIInterrupt" {
+			wantT = nmiT
+		}
+		tv, _ := out.Get(p.Root, "Type")
+		if tb, ok := tv.(dom.BV); !ok && wantT != 0 {
+			det = append(det, "Type is not set")
+		} else if ok {
+			if k, isc := tb.IsConst(); !isc || k != wantT {
+				det = append(det, fmt.Sprintf("Type is %s, expected %d", c.Describe(tb), wantT))
+			}
+		}
+		dv, hasData := out.Get(p.Root, "Data")
+		iw := cx.E.IntW
+		switch name {
+		case "NMIInterrupt", "IM1Interrupt":
+			if hasData {
+				if sl, ok := dv.(*absint.Slice); !ok || !sl.Len.Equal(c.Const(iw, 0)) {
+					det = append(det, "carries data bytes")
+				}
+			}
+		case "IM2Interrupt":
+			sl, ok := dv.(*absint.Slice)
+			if !ok || sl.Sym != "" || !sl.Len.Equal(c.Const(iw, 1)) {
+				det = append(det, "Data is not a one-byte slice")
+			} else {
+				ev0, _ := out.Get(sl.Root, fmt.Sprintf("%s[%d]", sl.Path, sl.Lo))
+				if b, ok := ev0.(dom.BV); !ok || !b.Equal(c.Atom("Init(arg0)", 8)) {
+					det = append(det, "Data[0] is not the vector argument")
+				}
+			}
+		case "IM0Interrupt":
+			sl, ok := dv.(*absint.Slice)
+			olen := c.Zext(c.Atom("len(arg1)", iw-1), iw)
+			if !ok || sl.Sym == "" || sl.LoV != nil || !sl.Len.Equal(c.AddK(olen, 1)) {
+				det = append(det, "Data is not a fresh slice of 1+len(others) bytes")
+			} else {
+				e0, _ := out.Get("elems:"+sl.Sym, "[0]")
+				if b, ok := e0.(dom.BV); !ok || !b.Equal(c.Atom("Init(arg0)", 8)) {
+					det = append(det, "Data[0] is not the first argument")
+				}
+				exp := dom.NewTrace(c)
+				exp.Emit(bdd.True, "slice.copy<-arg1", sl.Sym, []dom.BV{c.Const(iw, 1), olen, olen}, 0, "ref")
+				for _, d := range c.DiffMultiset(tr.MultisetChar(nil), exp.MultisetChar(nil)) {
+					det = append(det, "the remaining bytes are not copied to Data[1:] in order: "+d)
+				}
+			}
+		}
+		r.Check(len(det) == 0, key, rule, pos, "summary-equality", det...)
+	}
+	r.AddFloor("request_constructors", n, 4)
 }
